@@ -93,6 +93,21 @@ type Revocation struct {
 	// an error, whatever comes with it)
 	ErrWithResults bool
 	Calls          []RevCall
+	// OnCall runs at the start of every consultation (e.g. cancels the caller's context) and
+	// Delay is slept afterwards; CtxErr makes the context-aware interface answer with the
+	// context's error when the context is done by then
+	OnCall func()
+	Delay  time.Duration
+	CtxErr bool
+}
+
+func (r *Revocation) enter() {
+	if r.OnCall != nil {
+		r.OnCall()
+	}
+	if r.Delay > 0 {
+		time.Sleep(r.Delay)
+	}
 }
 
 func (r *Revocation) answer(chain []*x509.Certificate, t time.Time, iface string) ([]*result.CertRevocationResult, error) {
@@ -118,6 +133,13 @@ func (r *Revocation) answer(chain []*x509.Certificate, t time.Time, iface string
 
 // ValidateContext implements revocation.Validator.
 func (r *Revocation) ValidateContext(ctx context.Context, o revocation.ValidateContextOptions) ([]*result.CertRevocationResult, error) {
+	r.enter()
+	if r.CtxErr && ctx.Err() != nil {
+		r.mu.Lock()
+		r.Calls = append(r.Calls, RevCall{Chain: append([]*x509.Certificate{}, o.CertChain...), SigningTime: o.AuthenticSigningTime, Interface: "validator"})
+		r.mu.Unlock()
+		return nil, ctx.Err()
+	}
 	return r.answer(o.CertChain, o.AuthenticSigningTime, "validator")
 }
 
@@ -127,6 +149,7 @@ func (r *Revocation) Client() revocation.Revocation { return clientView{r} }
 type clientView struct{ r *Revocation }
 
 func (c clientView) Validate(chain []*x509.Certificate, signingTime time.Time) ([]*result.CertRevocationResult, error) {
+	c.r.enter()
 	return c.r.answer(chain, signingTime, "client")
 }
 
